@@ -52,6 +52,23 @@ func c15KeySet(m types.Services) []string {
 	return l
 }
 
+// c15ProfilesOK: every enabled service is active under the recorded profile list (decided here, not by HasProfile)
+func c15ProfilesOK(p *types.Project) bool {
+	for _, s := range p.Services {
+		act := len(s.Profiles) == 0
+		for _, y := range p.Profiles {
+			act = act || y == "*"
+			for _, x := range s.Profiles {
+				act = act || x == y
+			}
+		}
+		if !act {
+			return false
+		}
+	}
+	return true
+}
+
 func c15PartitionOf(p *types.Project, declared []string) string {
 	all := []string{}
 	for k := range p.Services {
@@ -132,6 +149,14 @@ func c15RealSeq(raw json.RawMessage) (res any) {
 		h := len(a.Names) / 2
 		d4 := cur.WithServicesDisabled(a.Names[:h]...).WithServicesDisabled(a.Names[h:]...)
 		law("WithServicesDisabled:two-calls", same(d1, d4) == "", "split in two calls differs in "+same(d1, d4))
+	}
+	// WithServicesEnabled is idempotent on a project whose enabled services are active (enable_idempotent)
+	if c15ProfilesOK(cur) {
+		if g1, err := cur.WithServicesEnabled(a.Names...); err == nil {
+			if g2, err2 := g1.WithServicesEnabled(a.Names...); err2 == nil {
+				law("WithServicesEnabled:idempotent", same(g1, g2) == "", "applied twice differs in "+same(g1, g2))
+			}
+		}
 	}
 	// WithSelectedServices is idempotent on success (select_idempotent)
 	if len(a.Names) > 0 {
